@@ -94,7 +94,8 @@ ResShareBU(T, RO, b) ==
   LET T1 == NewMag(T, Cell(RO, MUnit(T, b))) IN QInit(T1, Len(T1.mags), b)
 
 -----------------------------------------------------------------------------
-\* the machine step.  RO = the ideal's result object (tokens / flags), refused = the ideal's refusal
+\* the machine step.  RO = the result object (tokens, flags) computed from the MACHINE's view of the operands,
+\* refused = the machine's own refusal (RefusesOn asked about its view of the operands)
 MStep(A, T, RO, refused, tok) ==
   LET x == A.x  y == A.y  op == A.op IN
   CASE op \in {"add", "sub"} ->
@@ -165,6 +166,11 @@ MStep(A, T, RO, refused, tok) ==
     [] op \in {"abse_set", "rele_set"} -> [T EXCEPT !.mags[T.objs[x].m].e = tok]     \* written into the cell
     [] OTHER -> T                                                                      \* queries
 
+\* the machine's view of its objects as value records, its own refusal and its own result object
+MObj(T, o) == LET c == OMag(T, o) IN [q |-> c.q, u |-> OUnit(T, o), e |-> c.e, dec |-> c.dec, arr |-> c.arr, z |-> c.z]
+MIo(T) == [o \in 1..Len(T.objs) |-> MObj(T, o)]
+MRefuses(A, T) == RefusesOn(A, MObj(T, A.x), IF A.y > 0 THEN MObj(T, A.y) ELSE MObj(T, A.x))
+
 \* the name under which a departure of object o during action A is known
 DevName(A, T, o) ==
   CASE A.op \in InplaceOps -> "shares_magnitude_with_receiver"
@@ -211,15 +217,19 @@ Step(A) ==
       tok == 100 + Len(hist)
   IN /\ Len(hist) < MaxSteps
      /\ IF inpl THEN ninpl < MaxInpl ELSE npure < MaxPure
+     \* a history ends where the pinned machine, having left the ideal, refuses a call the ideal accepts (the object
+     \* lists are then no longer aligned)
+     /\ Len(S.objs) = Len(io)
      /\ \E I \in {IStep(A, io, tok)} :
-        \E T \in {MStep(A, S, IF I.res > 0 THEN I.io[I.res] ELSE NoObj, I.raises, tok)} :
+        \E mref \in {MRefuses(A, S)} :
+        \E T \in {MStep(A, S, IF HasResult(A.op) /\ ~mref THEN ResObj(A, MIo(S), tok) ELSE NoObj, mref, tok)} :
           LET old == 1..Len(S.objs)
               \* departures of this step: objects other than the receiver whose projection changes (must = TRUE) or whose
               \* Magnitude is replaced by a converted copy of equal projection (must = FALSE: x.f/f may differ from x in the last bit)
               devs == {[o |-> o, d |-> DevName(A, S, o), must |-> MProj(T, o) # MProj(S, o)] :
                           o \in {o \in old : o # I.recv /\ (MProj(T, o) # MProj(S, o) \/ T.objs[o].m # S.objs[o].m)}}
           IN /\ S' = T /\ io' = I.io
-             /\ hist' = Append(hist, [a |-> A, res |-> I.res, raises |-> I.raises, recv |-> I.recv, devs |-> devs,
+             /\ hist' = Append(hist, [a |-> A, res |-> I.res, raises |-> I.raises, recv |-> I.recv, devs |-> devs, mraises |-> mref,
                                       mres |-> IF Len(T.objs) > Len(S.objs) THEN Len(T.objs) ELSE 0,
                                       iu |-> [o \in 1..Len(I.io) |-> I.io[o].u],
                                       mu |-> [o \in 1..Len(T.objs) |-> OUnit(T, o)],
